@@ -100,13 +100,10 @@ B2ExprH(e, smart, h) ==
                           IF e.op \in {"and", "or"} THEN QBoolean(e.op = "or", B2ExprH(e.l, FALSE, h), B2ExprH(e.r, FALSE, h))
                           ELSE IF e.op \in ArithOps THEN QNumeric(e.op, B2ExprH(e.l, FALSE, h), B2ExprH(e.r, FALSE, h))
                           ELSE QLogical(e.op, B2ExprH(e.l, FALSE, h), B2ExprH(e.r, FALSE, h))
-      [] e.t = "filter" ->   \* (P)[p...] with a predicate-free path P; no steps after it in this fragment
-           LET inner == B2Expr(e.e, FALSE)
-           IN IF Len(e.preds) = 1 /\ Positional(e.preds[1]) /\ inner.t \in AxisKinds /\ inner.in.t # "ctx"
-              THEN \* the builder's "first input" is the LAST AXIS QUERY INSIDE the group: it is re-rooted at the
-                   \* context and the whole group is evaluated once per node of its former input
-                   QMerge(inner.in, QFilter(QGroup([inner EXCEPT !.in = QCtx]), B2Expr(e.preds[1], smart)))
-              ELSE B2Chain(QGroup(inner), e.preds, smart, NoHost)
+      [] e.t = "filter" ->   \* (P)[p...] with a predicate-free path P; no steps after it in this fragment.  groupQuery has no
+                             \* Merge property, so the merge rewrite never applies: a plain chain of filters over the group
+           B2Chain(QGroup(B2Expr(e.e, FALSE)), e.preds, smart,
+                   IF e.e.t = "path" /\ e.e.steps # <<>> THEN HostOf(e.e.steps[Len(e.e.steps)]) ELSE NoHost)
 Build2(e) == B2Expr(e, FALSE)
 
 \* ---- iteration state -------------------------------------------------------
@@ -225,7 +222,9 @@ Ev2(q, st, g, x) ==
       [] q.t = "merge"  -> LET i == Ev2(q.in, st.in, g, x)
                            IN V2(IsQ, IF "merge-not-reset" \in Deviations THEN [st EXCEPT !.in = i.st]
                                       ELSE [st EXCEPT !.in = i.st, !.active = FALSE], i.ops)
-      [] q.t = "group"  -> LET i == Ev2(q.in, st.in, g, x) IN V2(i.v, [st EXCEPT !.in = i.st], i.ops)
+      [] q.t = "group"  -> LET i == Ev2(q.in, st.in, g, x)      \* the position count restarts (F-C03-1)
+                           IN V2(i.v, IF "group-posit-not-reset" \in Deviations THEN [st EXCEPT !.in = i.st]
+                                      ELSE [st EXCEPT !.in = i.st, !.posit = 0], i.ops)
       [] q.t = "const"  -> V2(q.v, st, x.ops)
       [] q.t = "fn" ->
            IF q.f = "position"
